@@ -14,6 +14,8 @@ EXTRA_BASES = {
         "def g(a,\n      b):\n    if a:\n        return b\n    else:\n        return a \\\n            + b\n",
         "import x\n\nasync \\\ndef h(a):\n    return a\n\n@deco \\\n  (1)\ndef k():\n    pass\n",
         'def d():\n    """doc\x0cwith form feed\u2028and separator\n    end"""\n\ndef e():\n    x = 1\x0c\n    return x\n',
+        # identifiers a normalisation would rewrite (ligature, micro sign, full-width letter): a name is the text of its token
+        "def \ufb01le_size(p):\n    return len(p)\n\ndef to_\u00b5s(x):\n    y = x * 1000\n    return y\n\ndef \uff46oo(a):\n    return a\n",
     ],
     "C": ["static int first(int a, int b) {\n  return a + b;\n}\n\nint table[] = { 1, 2, 3 };\n\nvoid second() {\n  report(combine(alpha, beta, gamma, delta));\n  log(wrap(inner(x), y), z);\n}\nstruct point origin = { 0, 0 };\n",
           "#include <stdio.h>\n#define X(a) \\\n  (a)\nint main(int argc, char **argv) {\n  for (;;) { break; }\n  return 0;\n}\n",
@@ -21,7 +23,7 @@ EXTRA_BASES = {
     "C++": ["namespace n {\nclass K {\n public:\n  K() : a(1) {}\n  int m() const { return a; }\n  int a;\n};\n}\ntemplate <typename T> T id(T t) { return t; }\n"],
     "C#": ["using System;\nnamespace N {\n  class K {\n    public int P { get; set; }\n    public int M(int a) => a;\n    void F() { Action a = () => { }; }\n  }\n}\n"],
     "Java": ["package p;\nclass K {\n  void f(int a) throws E, F {\n    run(new R() {\n      public void g() { }\n    });\n  }\n  abstract int h();\n  record P(int x) { }\n}\n"],
-    "JavaScript": ["function type(a) {\n  return a;\n}\nfunction declare(b) {\n  return b;\n}\nfunction of(c) {\n  return c;\n}\n",   # names that are keywords next door (TypeScript)
+    "JavaScript": ["function \ufb01le(a) {\n  return a;\n}\nfunction to_\u00b5s(b) {\n  return b;\n}\n", "function type(a) {\n  return a;\n}\nfunction declare(b) {\n  return b;\n}\nfunction of(c) {\n  return c;\n}\n",   # names that are keywords next door (TypeScript)
                    "const handler = (wrap)((event) => {\n  return event;\n});\nconst twice = (compose)(x => x * 2);\nconst third = (a)(b)((c) => (d) => {\n  return d;\n});\nfunction plain(a) {\n  return a;\n}\n",
                    "const f = (a, b) => {\n  return a;\n};\nconst g = async (cb = () => 0) => {\n  await cb();\n};\nclass K {\n  m(a) { return `t ${a}\n  x`; }\n}\n"],
     "TypeScript": ["const handler = (wrap)((event: Event) => {\n  return event;\n});\nconst twice = (compose)((x: number) => x * 2);\nfunction plain(a: number): number {\n  return a;\n}\n",
